@@ -1,5 +1,112 @@
+import Casket.Model.TLSGroup
+import Casket.Spec.TLSGroup
+import Casket.Model.VHost
 import Driver.Proto
-/- Streams of C06 (stub: not built yet). -/
+import Driver.C01
+/-
+Streams of C06.
+  c06.select  aesni  cfgs  snihex  localip
+     cfgs    = ';' list of  hosthex|enabled|min|max|ciphers|curves|prefer|clientAuth|clientCerts|alpn|disableSNI
+               (ciphers, curves, clientCerts: comma list of decimals; alpn: comma list of hex)
+     localip = '-' (no connection) or hex
+     out     = err:<0 mix|1 build|2 incompatible> | plain | nil | any
+             | cfg TAB idx TAB min TAB max TAB ciphers TAB curves TAB prefer TAB clientAuth TAB alpn
+  c06.defaults aesni cfg          out = min TAB max TAB ciphers TAB curves TAB prefer   (SetDefaultTLSParams)
+  c06.snihost  sites cfgs hosthex pathhex tls snihex
+     sites as in c01.route, cfgs: per site clientAuth|disableSNI (';' list)
+     out = site TAB idx | forbidden | notfound TAB status
+-/
 namespace Driver.C06
-def streams : List Driver.Stream := []
+open Casket.TLSGroup
+open Casket.VHost (Bytes)
+
+def bytes := Driver.C01.bytes
+def hexB := Driver.C01.hexB
+
+def bytesList (s : String) : Option (List Bytes) :=
+  if s = "" then some [] else (s.splitOn ",").mapM bytes
+
+def parseCfg (s : String) : Option Cfg :=
+  match s.splitOn "|" with
+  | [h, en, mn, mx, cs, cv, pf, ca, cc, al, ds] => do
+    pure { hostname := ← bytes h, enabled := en == "1", minV := ← mn.toNat?, maxV := ← mx.toNat?,
+           ciphers := ← Driver.natList cs, curves := ← Driver.natList cv, preferServer := pf == "1",
+           clientAuth := ← ca.toNat?, clientCerts := ← Driver.natList cc, alpn := ← bytesList al,
+           disableSNIMatching := ds == "1" }
+  | _ => none
+
+def parseCfgs (s : String) : Option (List Cfg) :=
+  if s = "" then some [] else (s.splitOn ";").mapM parseCfg
+
+def parseLocal (s : String) : Option (Option Bytes) :=
+  if s = "-" then some none else (bytes s).map some
+
+def bool01 (b : Bool) : String := if b then "1" else "0"
+
+def showBuilt (b : Built) : String :=
+  "\t".intercalate [toString b.minV, toString b.maxV, Driver.showNatList b.ciphers, Driver.showNatList b.curves,
+    bool01 b.preferServer, toString b.clientAuth, ",".intercalate (b.nextProtos.map hexB)]
+
+def showObs : Obs → String
+  | .error c => s!"err:{c}"
+  | .plain => "plain"
+  | .nothing => "nil"
+  | .any => "any"
+  | .cfg i b => s!"cfg\t{i}\t{showBuilt b}"
+
+def parseObs (s : String) : Option Obs :=
+  match s.splitOn "\t" with
+  | ["err:0"] => some (.error 0)
+  | ["err:1"] => some (.error 1)
+  | ["err:2"] => some (.error 2)
+  | ["plain"] => some .plain
+  | ["nil"] => some .nothing
+  | ["any"] => some .any
+  | ["cfg", i, mn, mx, cs, cv, pf, ca, al] => do
+    let i ← i.toNat?
+    let mn ← mn.toNat?
+    let mx ← mx.toNat?
+    let cs ← Driver.natList cs
+    let cv ← Driver.natList cv
+    let ca ← ca.toNat?
+    let al ← bytesList al
+    pure (.cfg i { minV := mn, maxV := mx, ciphers := cs, curves := cv, preferServer := pf == "1",
+                   clientAuth := ca, nextProtos := al })
+  | _ => none
+
+structure SelCase where
+  aesni : Bool
+  cfgs : List Cfg
+  sni : Bytes
+  localIP : Option Bytes
+
+def parseSel : List String → Option SelCase
+  | [a, cs, sni, lip] => do
+    pure { aesni := a == "1", cfgs := ← parseCfgs cs, sni := ← bytes sni, localIP := ← parseLocal lip }
+  | _ => none
+
+def selectModel (f : List String) : String :=
+  match parseSel f with
+  | none => "bad-case"
+  | some c => showObs (pipeline c.aesni c.cfgs c.sni c.localIP)
+
+def selectJudge (f : List String) (out : String) : String :=
+  match parseSel f, parseObs out with
+  | some c, some o => Casket.TLSSpec.verdict c.aesni c.cfgs c.sni c.localIP o
+  | _, _ => "bad:unparsable:" ++ out
+
+def defaultsModel : List String → String
+  | [a, c] =>
+    match parseCfg c with
+    | none => "bad-case"
+    | some c =>
+      let d := setDefaults (a == "1") c
+      "\t".intercalate [toString d.minV, toString d.maxV, Driver.showNatList d.ciphers, Driver.showNatList d.curves, bool01 d.preferServer]
+  | _ => "bad-case"
+
+def streams : List Driver.Stream := [
+  { name := "c06.select", model := selectModel, judge := selectJudge },
+  { name := "c06.defaults", model := defaultsModel, judge := fun _ _ => "ok" }
+]
+
 end Driver.C06
